@@ -42,13 +42,15 @@ CHECKS = {
         'probes': [],
     },
     'C05': {
-        'families': [['c05:fail', 1.0], ['c05:stop', 1.0], ['c05:timeout', 0.5]],
+        'families': [['c05:fail', 1.0], ['c05:afail', 0.5], ['c05:stop', 1.0], ['c05:timeout', 0.5]],
         'runs': {'quick': 30000, 'thorough': 1500000},
         'budget': {'quick': 100, 'thorough': 1500},
         'level': 'fault_enumeration',
         'rule': ('each evaluation is one simulated execution of the real IteratorQueue with one injected '
                  'fault: (fail) producer p raises after i items, (p, i) drawn uniformly over all positions of '
-                 'the drawn workload; (stop) maybe_stop()/maybe_stop(exc) issued by an extra thread after a '
+                 'the drawn workload, a consumer that saw the failure may issue a plain stop; (afail) the same on an '
+                 'AsyncIteratorQueue fed by coroutines running async_enqueue_from_iterator on one event loop, mixed '
+                 'with thread producers; (stop) maybe_stop()/maybe_stop(exc) issued by an extra thread after a '
                  'drawn number of scheduling steps or as soon as a producer is blocked in put / a consumer is '
                  'waiting; (timeout) a peer that stops producing/consuming with timeout configured. '
                  'Non-trivial = the fault actually fired and the run had more than two context switches; '
